@@ -60,8 +60,17 @@ def attach_evaluate(prop="C05"):
             raise exc
         return res
 
-    for cls in (E.UnaryExpression, E.BinaryExpression, E.ConstantExpression, E.VariableExpression):
-        contracts.attach(cls, "evaluate", around=around)
+    # every class of the expression hierarchy that defines evaluate itself (an override added further
+    # down the hierarchy must not slip past the monitor); nesting is tracked by the shared _DEPTH
+    seen, stack = set(), [E.MathExpression]
+    while stack:
+        cls = stack.pop()
+        if cls in seen:
+            continue
+        seen.add(cls)
+        stack.extend(cls.__subclasses__())
+        if "evaluate" in cls.__dict__ and not getattr(cls.__dict__["evaluate"], "__vmon_original__", None):
+            contracts.attach(cls, "evaluate", around=around)
 
 
 def _num_class(v):
@@ -125,7 +134,9 @@ def _float_exact(s, sigma):
             b, e = X.ev(s[2], sigma), X.ev(s[3], sigma)
         except X.Undef:
             return False
-        if b.v.denominator != 1 or e.v.denominator != 1 or e.v < 0:
+        zero_base = b.v == 0 and e.v > 0                      # 0^p is exactly 0 for every positive p
+        int_power = e.v.denominator == 1                     # the result itself was checked above to be a binary fraction that fits
+        if not (zero_base or int_power):
             return False
     return _float_exact(s[2], sigma) and _float_exact(s[3], sigma)
 
